@@ -62,7 +62,7 @@ prop("C15",
      driver=lambda tier, seed, gen, out: ["check", "-gen", gen, "-out", out, "-seed", str(seed)] +
      _t(tier, ["-sample", "40000", "-random", "5000"], ["-random", "200000"]),
      trace=("Trace_Schema", "Trace_Schema.cfg"),
-     required=["Check:clean", "Check:errors"],
+     required=["Check:clean", "Check:errors", "build:lit", "build:api"],
      level_text="TLC checks an operational transcription of the Check loop against the declarative set of offending "
                 "relationships over every schema of a bounded universe (130k two-type schemas with two relationship "
                 "names; 52k three-type schemas in the thorough tier), emits each of those schemas, and the driver "
